@@ -17,6 +17,37 @@ sys.path.insert(0, HERE)
 import common
 
 
+def run_corpus(ctx, mod, prop):
+    """the inputs on which earlier seeded changes were caught (seeded/<id>/replay.json, written when the seed was
+    confirmed) are replayed first: a change that is caught once stays caught, whatever the random stream of a later
+    version of the generators produces.  On a tree where the property holds each of them holds."""
+    import io, glob, contextlib
+    files = sorted(glob.glob(os.path.join(common.VERIF, 'seeded', prop.lower() + '-*', 'replay.json')))
+    held = stale = 0
+    for f in files:
+        sid = os.path.basename(os.path.dirname(f))
+        try:
+            data = json.load(open(f))
+            cwd = os.getcwd()
+            with contextlib.redirect_stdout(io.StringIO()) as buf:
+                ok = mod.replay(ctx, data)
+            os.chdir(cwd)
+        except Exception:
+            stale += 1          # (an input in a format the harness no longer reads: not counted either way)
+            os.chdir(ctx.scratch)
+            continue
+        ctx.case({'corpus': sid}, nontrivial=True)
+        if ok:
+            held += 1
+        else:
+            ctx.fail('corpus:%s:%s' % (sid, data.get('signature', '')),
+                     'the input on which the seeded change %s was caught fails: %s ... %s'
+                     % (sid, str(data.get('what'))[:300], buf.getvalue()[-300:]), data.get('input'))
+    if files:
+        ctx.obligation('corpus: %d inputs on which earlier seeded changes of this property were caught, replayed first '
+                       '(%d hold, %d no longer readable)' % (len(files), held, stale), 'tie', True, '')
+
+
 def main():
     ap = argparse.ArgumentParser()
     ap.add_argument('prop')
@@ -58,6 +89,7 @@ def main():
             if not args.no_lean:
                 common.lean_check(ctx, getattr(mod, 'LEAN_TARGETS', None))
             try:
+                run_corpus(ctx, mod, prop)
                 mod.run(ctx)
             except Exception:
                 # the harness no longer runs against this tree: a broken tie
